@@ -44,6 +44,15 @@ def make_frame(kind_g, els_g, kind_h, els_h, active='g', index0=10):
     return df
 
 
+def shift(el, off):
+    """the element moved by (off, off)"""
+    if el is None:
+        return None
+    if isinstance(el, (list, tuple)):
+        return [shift(x, off) for x in el]
+    return el + off
+
+
 def compositions(n):
     """all ways of cutting range(n) into consecutive non-empty chunks: list of cut lists"""
     out = []
